@@ -312,6 +312,7 @@ def drive(prop, tier, seed, jobs=None):
     known = known_mechs(prop)
     pos = {}
     stopped = False
+    stop_t = 0.0
     while True:
         alive = [p for _, _, _, p in procs if p.poll() is None]
         if not alive:
@@ -340,9 +341,15 @@ def drive(prop, tier, seed, jobs=None):
                         if any(v["mech"] not in known for v in rec.get("violations", [])):
                             stopped = True
             if stopped:
+                stop_t = time.time()
                 for _, _, _, p in procs:
                     if p.poll() is None:
                         p.terminate()
+        if stopped and time.time() - stop_t > 20:
+            # a shard that does not react to SIGTERM (e.g. spinning inside the code under test): never leave it behind
+            for _, _, _, p in procs:
+                if p.poll() is None:
+                    p.kill()
         time.sleep(0.3)
     for s, outp, errp, p in procs:
         rc = p.wait()
